@@ -27,11 +27,14 @@ type XType struct {
 	Posix          []string `json:",omitempty"` // posix-pattern arguments, accumulated like Patterns
 	Enums          map[string]int64
 	Bits           map[string]int64
-	Path           string
-	Union          []*XType
-	Range          numref.Set // nil: not a numeric kind
-	Length         numref.Set // nil: unrestricted / not applicable
-	IdentityBase   string     // "module:identity"
+	// observed only (dumps): the value-to-name views of an enumeration / bits type
+	EnumByValue  map[int64]string `json:",omitempty"`
+	BitByValue   map[int64]string `json:",omitempty"`
+	Path         string
+	Union        []*XType
+	Range        numref.Set // nil: not a numeric kind
+	Length       numref.Set // nil: unrestricted / not applicable
+	IdentityBase string     // "module:identity"
 	// Observed only (never compared with the reference; for dumps that are compared run against run): the
 	// module text that holds the base, by full name, and the values the identityref admits.
 	IdentityBaseIn string   `json:",omitempty"`
